@@ -13,9 +13,11 @@
         sc      0 | code of the exception raised by one more close()
         c2      descriptors after that close
         d       descriptors after gc.collect()                   (only classifies finding 1)
-   (2 (((suffix ...) cls) ...) ((name obs_suffix result (ctor ...)) ...))   fresh WBFileRegistry
-        registrations in order, then lookups; result = (0 cls) | (1 exn);
-        ctor = ids of the classes whose constructor ran during the lookup
+   (2 (op ...))                                                             fresh WBFileRegistry
+        a history, in order: op = (0 (suffix ...) cls)                       file_suffix(suffixes)(class)
+                                | (1 name obs_suffix result (ctor ...))      open_workbook(dir/name)
+        result = (0 cls) | (1 exn); ctor = ids of the classes whose constructor ran during the open
+   (4 (op ...))                                                             the same on the global registry
    (3 name obs_suffix result opens fd_after)                                the global registry
         opens = number of open() audit events on the path during open_workbook
    Strings are lists of code points. *)
@@ -119,39 +121,61 @@ Definition judge_lifecycle (cid : Z) (md : Z) (codes : list Z) (obs : sx) : sx :
   end.
 
 (* ---------------------------------------------------------------- kinds 2 and 3 *)
-Definition decode_reg (x : sx) : list (list N) * N :=
-  (map as_Ns (as_list (nth_sx 0 x)), as_N (nth_sx 1 x)).
-
 Definition res_sx (r : res N) : sx := sx_of_res of_N r.
 
 Definition want (spec : option N) : res N :=
   match spec with Some c => Ok c | None => Err NotImplementedError end.
 
-(* one lookup: (good, agree, found, overridden) *)
-Definition judge_lookup (ds : list (list (list N) * N)) (x : sx) : bool * bool * bool * bool :=
-  let name := as_Ns (nth_sx 0 x) in
-  let o_suffix := as_Ns (nth_sx 1 x) in
-  let o_result := nth_sx 2 x in
-  let o_ctor := as_Ns (nth_sx 3 x) in
-  let spec := last_mention ds o_suffix in
-  let '(m_res, m_trace) := open_workbook (register_all ds) (path_suffix name) in
-  let good :=
-    sx_eqb o_result (res_sx (want spec))
-    && sx_eqb (of_Ns o_ctor) (of_Ns (match spec with Some c => [c] | None => [] end)) in
-  let agree :=
-    seq_eqb (path_suffix name) o_suffix && sx_eqb o_result (res_sx m_res)
-    && sx_eqb (of_Ns o_ctor) (of_Ns (map (fun e => match e with Construct c => c end) m_trace)) in
-  (good, agree, match spec with Some _ => true | None => false end, Nat.ltb 1 (mentions ds o_suffix)).
+Definition is_open (x : sx) : bool := as_Z (nth_sx 0 x) =? 1.
 
-Definition judge_fresh (regs lookups : sx) : sx :=
-  let ds := map decode_reg (as_list regs) in
-  let rs := map (judge_lookup ds) (as_list lookups) in
-  let good := forallb (fun r => fst (fst (fst r))) rs in
-  let agree := forallb (fun r => snd (fst (fst r))) rs in
-  let found := existsb (fun r => snd (fst r)) rs in
-  let over := existsb (fun r => snd r) rs in
-  verdict None good agree (20 + (if over then 2 else if found then 1 else 0))
-    (L (map (fun x => res_sx (fst (open_workbook (register_all ds) (path_suffix (as_Ns (nth_sx 0 x)))))) (as_list lookups))).
+Definition reg_of (x : sx) : hop := HRegister (map as_Ns (as_list (nth_sx 1 x))) (as_N (nth_sx 2 x)).
+
+(* the history as the model sees it (suffix computed from the name) and as the specification
+   sees it (suffix as pathlib reported it) *)
+Definition model_op (x : sx) : hop := if is_open x then HOpen (path_suffix (as_Ns (nth_sx 1 x))) else reg_of x.
+Definition spec_op (x : sx) : hop := if is_open x then HOpen (as_Ns (nth_sx 2 x)) else reg_of x.
+
+Definition optN_eqb (a b : option N) : bool :=
+  match a, b with Some x, Some y => N.eqb x y | None, None => true | _, _ => false end.
+
+(* two opens of the same suffix with different answers: the history matters *)
+Fixpoint changed (l : list (list N * option N)) : bool :=
+  match l with
+  | [] => false
+  | (s, a) :: t => existsb (fun q => seq_eqb s (fst q) && negb (optN_eqb a (snd q))) t || changed t
+  end.
+
+Definition regs_of (ops : list hop) : list (list (list N) * N) :=
+  flat_map (fun o => match o with HRegister n c => [(n, c)] | HOpen _ => [] end) ops.
+
+(* r = the registry the history starts on, pre = the registrations that produced it *)
+Definition judge_history (base : Z) (r : registry) (pre : list (list (list N) * N)) (ops : sx) : sx :=
+  let xs := as_list ops in
+  let opens := filter is_open xs in
+  let sops := map spec_op xs in
+  let m_out := run_ops r (map model_op xs) in
+  let s_out := history pre sops in
+  let good :=
+    Nat.eqb (length opens) (length s_out)
+    && forallb (fun p =>
+         let x := fst p in let spec := snd p in
+         sx_eqb (nth_sx 3 x) (res_sx (want spec))
+         && sx_eqb (of_Ns (as_Ns (nth_sx 4 x))) (of_Ns (match spec with Some c => [c] | None => [] end)))
+       (combine opens s_out) in
+  let agree :=
+    Nat.eqb (length opens) (length m_out)
+    && forallb (fun p =>
+         let x := fst p in let m := snd p in
+         seq_eqb (path_suffix (as_Ns (nth_sx 1 x))) (as_Ns (nth_sx 2 x))
+         && sx_eqb (nth_sx 3 x) (res_sx (fst m))
+         && sx_eqb (of_Ns (as_Ns (nth_sx 4 x))) (of_Ns (map (fun e => match e with Construct c => c end) (snd m))))
+       (combine opens m_out) in
+  let asked := map (fun x => as_Ns (nth_sx 2 x)) opens in
+  let found := existsb (fun a => match a with Some _ => true | None => false end) s_out in
+  let over := existsb (fun s => Nat.ltb 1 (mentions (pre ++ regs_of sops) s)) asked in
+  verdict None good agree
+    (base + (if changed (combine asked s_out) then 3 else if over then 2 else if found then 1 else 0))
+    (L (map (fun m => res_sx (fst m)) m_out)).
 
 Definition judge_global (c : sx) : sx :=
   let name := as_Ns (nth_sx 1 c) in
@@ -170,6 +194,7 @@ Definition judge_global (c : sx) : sx :=
 Definition judge (c : sx) : sx :=
   let k := as_Z (nth_sx 0 c) in
   if k =? 1 then judge_lifecycle (as_Z (nth_sx 1 c)) (as_Z (nth_sx 2 c)) (as_Zs (nth_sx 3 c)) (nth_sx 4 c)
-  else if k =? 2 then judge_fresh (nth_sx 1 c) (nth_sx 2 c)
+  else if k =? 2 then judge_history 20 [] [] (nth_sx 1 c)
+  else if k =? 4 then judge_history 40 global_registry registrations (nth_sx 1 c)
   else if k =? 3 then judge_global c
   else L [A 9; A 0].
